@@ -61,6 +61,16 @@ CHECKS = {
         "steps": [vc("c15", "lists", 40000, 1600000)],
         "assumptions": L1_ASSUME + ["the documented default chain (from_meta -> from_word/from_list/from_expr -> from_value -> from_bool/from_string/from_char) is read off the FromMeta trait docs"],
     },
+    "C12": {
+        "packages": ["vchecks"],
+        "steps": [vc("c12", "wrappers", 1500, 64000)],
+        "assumptions": L1_ASSUME + ["the wrapped type's own from_meta on the same item is the reference (differential)"],
+    },
+    "C18": {
+        "packages": ["vchecks"],
+        "steps": [vc("c18a", "shapeset", 1, 1, 1)],
+        "assumptions": L1_ASSUME,
+    },
     "C05": {
         "packages": ["vchecks"],
         "steps": [vc("c05", "histories", 40000, 1600000)],
